@@ -397,9 +397,9 @@ def shards(tier, seed):
     big = tier == "thorough"
     out = [("rejections", "shard_rejections", {})]
     for i in range(8):
-        out.append((f"segment{i}", "shard_segment", {"max_examples": 1500 if big else 250}))
+        out.append((f"segment{i}", "shard_segment", {"max_examples": 8000 if big else 250}))
     for i in range(7):
-        out.append((f"unrestrict{i}", "shard_unrestrict", {"max_examples": 1500 if big else 300}))
+        out.append((f"unrestrict{i}", "shard_unrestrict", {"max_examples": 8000 if big else 300}))
     return out
 
 
